@@ -104,7 +104,7 @@ def step (st : St) : List String → St × String
     | none => (st, "nockpt")
     | some db =>
       ({ st with reg := freshReg st.cfg db,
-                 spec := ⟨st.specCkpt.getD [], Wm.Ups.init (runnerIds st.cfg.runners), Wm.zeroTime⟩ }, "ok")
+                 spec := ⟨st.specCkpt.getD [], Wm.Ups.init (runnerIds st.cfg.runners), Wm.regInit⟩ }, "ok")
   | _ => (st, "bad-op")
 
 def handle (lines : Array String) (i : Nat) (out : Array String) : Nat × Array String :=
@@ -112,7 +112,7 @@ def handle (lines : Array String) (i : Nat) (out : Array String) : Nat × Array 
   match hdr with
   | "M" :: _ :: "op" :: rest =>
     -- operator mode: the operator event loop `Timers.Op` (shared with C11's driver section)
-    runLines Driver.C11.stepOp { Driver.C11.initSt ("M" :: "C11" :: rest) with toldSpec := false } lines i out
+    runLines Driver.C11.stepOp (Driver.C11.initSt ("M" :: "C11" :: rest)) lines i out
   | _ => runLines step (initSt hdr) lines i out
 
 end Driver.C10
